@@ -2490,6 +2490,9 @@ column_41			(vbi_page *		pg,
 
 	acp[40] = acp[39];
 	acp[40].unicode = 0x0020;
+	/* Not part of a navigation link: pg->nav_index[] has no entry for
+	   this column, vbi_resolve_link() would read an uninitialized one. */
+	acp[40].link = FALSE;
 	column_41_size (&acp[40]);
 }
 
